@@ -137,6 +137,10 @@ def run(chk):
     sweep_centre_rule(chk, src)
     C03.run_merge_order(chk, src)
     C03.run_label_freshness(chk, src)
+    chk.rule("sector-constructor", "Mps.hartree_product_state as a whole on exact data (one- and two-component charges): integer occupations and site vectors inside one sector are accepted with "
+             "running-sum labels; a site vector over local states of different quantum numbers is refused", 8)
+    from . import decompose_rules as DR
+    DR.hartree_rule(chk, src, "sector-constructor")
     chk.rule("mask-and-outer", "sector mask and label merge helpers (abstract runs)", 2)
     from .mini_specs import qn_mask_and_outer
     qn_mask_and_outer(chk, src, "mask-and-outer")
